@@ -57,8 +57,9 @@ Step(ev) ==
 Matches(ev) ==
   /\ obs'.a = ev.a
   /\ \A k \in DOMAIN obs'.exp :
-       IF k = "ret" THEN (obs'.exp[k] = "any" \/ obs'.exp[k] = ev.obs[k])
-       ELSE obs'.exp[k] = ev.obs[k]
+       /\ k \in DOMAIN ev.obs
+       /\ IF k = "ret" THEN (obs'.exp[k] = "any" \/ obs'.exp[k] = ev.obs[k])
+          ELSE obs'.exp[k] = ev.obs[k]
 
 TraceInit ==
   /\ l = 1
